@@ -13,6 +13,7 @@ import m_conc
 import m_copyw
 import m_amap
 import m_own
+import m_xen
 
 
 def c09(ctx):
@@ -24,10 +25,22 @@ def both(ctx):
     m_guest.run(ctx)
 
 
+def c17(ctx):
+    m_volatile.run(ctx)
+    m_xen.xgrant(ctx)
+
+
+def c18(ctx):
+    m_volatile.run(ctx)
+    m_guest.run(ctx)
+    m_xen.xgrant(ctx, zero=True)
+
+
 def c07(ctx):
     m_volatile.run(ctx)
     m_guest.run(ctx)
     m_bitmap.traces(ctx)
+    m_xen.xgrant(ctx, zero=True)
 
 
 PROPS = {
@@ -36,9 +49,10 @@ PROPS = {
     "C01": m_volatile.run,
     "C04": m_volatile.run,
     "C05": both,
+    "C15": m_xen.xctor,
     "C16": both,
-    "C17": m_volatile.run,
-    "C18": both,
+    "C17": c17,
+    "C18": c18,
     "C07": c07,
     "C06": m_copyw.run,
     "C08": m_conc.run,
